@@ -13,7 +13,7 @@ import (
 
 // C16 — yank gives back exactly what kill took.
 
-const c16Rule = "buffers (words, punctuation, quotes, runs of blanks, embedded newlines via a multi-line accept rule, multi-byte text) x every cursor position x kill command by NAME on a private sequence (kill-line, backward-kill-line, unix-line-discard, kill-whole-line, kill-word, backward-kill-word, unix-word-rubout, shell-kill-word, shell-backward-kill-word, kill-region after set-mark + motion, kill-buffer; vi: vi-delete (x) with counts then vi-put-before (P)) x optional numeric argument, followed by yank at once; sequences kill, motion, kill, ..., yank and directly consecutive kills; one command per read; oracle: the buffer after a kill is the buffer before with ONE contiguous range removed, that range is the kill register, an immediate yank restores the buffer, and after several kills yank inserts the text of the most recent one (directly consecutive kills may also have accumulated, the statement is silent); non-trivial = something was removed and the cursor was inside the buffer, or the buffer is multi-line / multi-byte, or a count != 1, or >= 2 kills; distinct = hash of the case"
+const c16Rule = "buffers (words, punctuation, quotes, runs of blanks, embedded newlines via a multi-line accept rule, multi-byte text) x every cursor position x kill command by NAME on a private sequence (kill-line, backward-kill-line, unix-line-discard, kill-whole-line, kill-word, backward-kill-word, unix-word-rubout, shell-kill-word, shell-backward-kill-word, kill-region after set-mark + motion (one time in four with exchange-point-and-mark in between), kill-buffer; vi: vi-delete (x) with counts then vi-put-before (P)) x optional numeric argument, followed by yank at once, and for a single kill by a small edit inside the yanked text and a second yank (which must insert the killed text again); sequences kill, motion, kill, ..., yank and directly consecutive kills; one command per read; oracle: the buffer after a kill is the buffer before with ONE contiguous range removed, that range is the kill register, an immediate yank restores the buffer, and after several kills yank inserts the text of the most recent one (directly consecutive kills may also have accumulated, the statement is silent); non-trivial = something was removed and the cursor was inside the buffer, or the buffer is multi-line / multi-byte, or a count != 1, or >= 2 kills; distinct = hash of the case"
 
 type C16Case struct {
 	Mode   string   `json:"mode"` // emacs | vi
@@ -21,6 +21,11 @@ type C16Case struct {
 	Back   int      `json:"back"`             // cursor = len(text) - back
 	Kills  []C16Kil `json:"kills"`            // at least one
 	Region int      `json:"region,omitempty"` // kill-region: runes moved after set-mark (negative = backward)
+	// kill-region: exchange-point-and-mark between the motion and the kill
+	Exchange bool `json:"exchange,omitempty"`
+	// single kill: after the yank, move back Again runes, type a character and
+	// yank once more: the text inserted must still be what the kill removed
+	Again int `json:"again,omitempty"`
 }
 
 type C16Kil struct {
@@ -67,6 +72,8 @@ func genC16(t *rapid.T) *C16Case {
 	}
 
 	c.Region = rapid.IntRange(-6, 6).Draw(t, "region")
+	c.Exchange = rapid.IntRange(0, 3).Draw(t, "exchange") == 0
+	c.Again = rapid.SampledFrom([]int{0, 0, 1, 2, 3}).Draw(t, "again")
 
 	return c
 }
@@ -151,7 +158,7 @@ func insertedTexts(x, y []rune) []string {
 
 func runC16(h *Harness, child *rig.Child, c *C16Case) (f *Failure, nontrivial bool) {
 	e := h.env()
-	names := append(append([]string{"yank", "set-mark", "forward-char", "backward-char", "vi-delete", "vi-put-before"}, c16Kills...), c16Motions...)
+	names := append(append([]string{"yank", "set-mark", "exchange-point-and-mark", "forward-char", "backward-char", "vi-delete", "vi-put-before"}, c16Kills...), c16Motions...)
 	spec := &proto.Spec{Calls: 1, Inputrc: renderVars(c.Mode, [][2]string{{"convert-meta", "off"}, {"input-meta", "on"}, {"output-meta", "on"}}),
 		LogCmds: true, Multiline: "backslash", Prompt: &proto.PromptSpec{Primary: "> "}, Binds: e.bindNames(names, mainKeymaps...)}
 
@@ -266,6 +273,10 @@ func runC16(h *Harness, child *rig.Child, c *C16Case) (f *Failure, nontrivial bo
 				d.send([]byte(digitArg(-c.Region)))
 				d.send([]byte(e.key("backward-char")))
 			}
+
+			if c.Exchange {
+				d.send([]byte(e.key("exchange-point-and-mark")))
+			}
 		}
 
 		if d.fail != nil {
@@ -323,6 +334,33 @@ func runC16(h *Harness, child *rig.Child, c *C16Case) (f *Failure, nontrivial bo
 				sig := "c16:" + k.Cmd + ":restore"
 
 				return failf("restore", sig, "%s (count %d) at %d then yank: %q -> %q -> %q (register %q)", k.Cmd, k.Count, before.Pos, before.Line, after.Line, y.Line, after.Kill), true
+			}
+
+			if c.Again > 0 {
+				d.send([]byte(digitArg(c.Again)))
+				d.send([]byte(e.key("backward-char")))
+
+				x := d.send([]byte("X"))
+				if x == nil {
+					return d.fail, false
+				}
+
+				y2 := d.send([]byte(e.key("yank")))
+				if y2 == nil {
+					return d.fail, false
+				}
+
+				found := false
+
+				for _, ins := range insertedTexts([]rune(x.Line), []rune(y2.Line)) {
+					if ins == lastK {
+						found = true
+					}
+				}
+
+				if !found || y2.Kill != lastK {
+					return failf("yank-again", "c16:yank-again", "%s at %d removed %q; yank restored %q; after moving back %d and typing X (%q) a second yank gives %q with the register holding %q: not the text the kill removed", k.Cmd, before.Pos, lastK, y.Line, c.Again, x.Line, y2.Line, y2.Kill), true
+				}
 			}
 		}
 	}
